@@ -237,7 +237,7 @@ def _post_submit_now(engine, st, ctx, out):
                       engine.to_val(st, ev.starkw) == ctx["kwargs"] if ev.starkw is not None else False,
                       ev.recv == Val.id(st.get("_delegate", sid))), ["C01", "C05"]))
     cl.append(("RETRY_TOTAL counts exactly the submissions that are retries (attempt != 0)", "PC",
-               z3.If(ctx["attempt"] != 0, z3.BoolVal(len(rtot) == 1), z3.BoolVal(len(rtot) == 0)), ["C20"]))
+               z3.If(ctx["attempt"] != 0, z3.BoolVal(len(rtot) == 1 and rtot[0].meth == "inc"), z3.BoolVal(len(rtot) == 0)), ["C20"]))
     if isinstance(out, Raise):
         cl.append(("only the delegate's own submit() error can escape the hand-over", "EX", out.exc.t == ev.exc if ev.exc is not None else False, ["C18"]))
         return cl
@@ -319,8 +319,9 @@ def _post_cancel(engine, st, ctx, out):
                    z3.And(z3.BoolVal(len(qdec) == 1), z3.BoolVal(all(any(h[3] == "_lock" and h[2] is not None and z3.is_true(z3.simplify(h[2] == _owner_sid(st, ctx))) for h in (e.held or [])) for e in qdec))), ["C20"]))
         return cl
     cl.append(("an in-flight attempt: stop_retry is set under the executor lock BEFORE the delegate is asked to cancel (ends retrying even if cancel fails)", "PC",
-               z3.BoolVal(len(dcalls) == 1 and len(sw) == 1 and sw[0][0] < dcalls[0][0] and any(h[3] == "_lock" for h in sw[0][1].held)
-                          and not any(h[3] == "_lock" for h in dcalls[0][1].held)), ["C06", "C05", "C04"]))
+               z3.And(z3.BoolVal(len(dcalls) == 1 and len(sw) == 1 and sw[0][0] < dcalls[0][0] and any(h[3] == "_lock" for h in sw[0][1].held)
+                                 and not any(h[3] == "_lock" for h in dcalls[0][1].held)),
+                      sw[0][1].args[0] == Val.boolv(z3.BoolVal(True)) if sw else False), ["C06", "C05", "C04"]))
     if dcalls:
         ev = dcalls[0][1]
         cl.append(("the result is the delegate's own answer to cancel()", "PC", r == ev.ret if ev.ret is not None else z3.BoolVal(False), ["C06"]))
@@ -355,6 +356,8 @@ def _post_submit_retry(engine, st, ctx, out):
         cn = engine.class_of_value(st, out.exc)
         return [("submit raises only RuntimeError (after shutdown), queuing nothing", "PC", z3.BoolVal(cn == "RuntimeError" and not apps), ["C11", "C05"])]
     cl = [("exactly one idle job is queued", "PC", z3.BoolVal(len(apps) == 1), ["C05", "C01"])]
+    from .base import track_clause
+    cl.append(track_clause(engine, st, engine.to_val(st, out), "retry", st.get("_name", ctx["sid"])))
     if apps:
         nj = Val.id(apps[0][1].args[1])
         reads = st.ghost.get("clock_reads", [])
@@ -418,6 +421,27 @@ def _cfg_loop():
         job = st.ghost.get("next_job")
         out.append(("the queue is scanned under the executor lock, once per iteration", z3.BoolVal(
             len(scans) == 1 and any(h[3] == "_lock" for h in events[scans[0]].held))))
+        out.append(("an iteration that scans the queue started with the executor alive: neither shut down nor at interpreter exit "
+                    "(the submit thread does no further round of work after shutdown)", z3.Not(engine.cfg.flags.now(ctx["head"]))))
+        pops = [e for e in events if e.kind == "repo-call" and e.meth.endswith("._pop_job")]
+        stopped = any(a == "job.stop_retry" and b for a, b in st.decisions)
+        if stopped:
+            res = [e for e in events if e.kind == "resolve" or (e.kind == "repo-call" and e.meth.endswith(".copy_future"))]
+            out.append(("a job whose future was asked to cancel is discarded: taken off the queue exactly once (it would be found again for ever otherwise), "
+                        "never handed to the delegate", z3.And(z3.BoolVal(len(pops) == 1 and not subs), pops[0].args[1] == job if pops else False)))
+            out.append(("... and its future is resolved from the last finished attempt (copy_future), so that it does not stay pending", z3.Or(z3.BoolVal(len(res) >= 1), st.done(Val.id(st.get("future", Val.id(job)))))))
+        else:
+            out.append(("only a discarded job is popped by the loop itself", z3.BoolVal(not pops)))
+        # every iteration does exactly one of: discard a cancelled job / hand a due job over / sleep (a loop that does none of them spins)
+        nojob = any(a == "not job" and b for a, b in st.decisions)
+        due = [b for a, b in st.decisions if a == "job.when <= now"]
+        if nojob:
+            out.append(("nothing queued: the thread sleeps until it is woken (one untimed wait)", z3.BoolVal(len(waits) == 1 and not subs and waits[0][1].args[0] is None)))
+        elif not stopped and due and due[-1]:
+            out.append(("a due job is handed over in this very iteration (exactly one _submit_now, of that job; no sleeping first)",
+                        z3.And(z3.BoolVal(len(subs) == 1 and not waits), subs[0].args[1] == job if subs else False)))
+        elif not stopped:
+            out.append(("a job that is not due yet: the thread sleeps (one timed wait) and hands nothing over", z3.BoolVal(len(waits) == 1 and not subs and waits[0][1].args[0] is not None)))
         if subs:
             now = st.ghost.get("clock")
             out.append(("an attempt is handed over only once its due time has been reached (never before sleep_time has elapsed)",
@@ -427,8 +451,9 @@ def _cfg_loop():
             tmo = w.args[0]
             out.append(("W2: wait comes after the scan, clear directly after wait, nothing is read in between",
                         z3.BoolVal(len(waits) == 1 and len(clears) == 1 and scans and scans[0] < i_w < clears[0] and clears[0] == len(events) - 1)))
-            out.append(("the thread holds no lock and no strong reference to its executor while it waits",
-                        z3.BoolVal(not w.held and st.lookup_env(fr.eid, "executor") is None)))
+            out.append(("the thread holds no lock and no strong reference to its executor - nor to a job (future, callable, arguments) - while it waits",
+                        z3.And(z3.BoolVal(not w.held and st.lookup_env(fr.eid, "executor") is None),
+                               z3.BoolVal(True) if st.lookup_env(fr.eid, "job") is None else Val.is_none(engine.to_val(st, st.envs[st.lookup_env(fr.eid, "job")]["job"])))))
             if tmo is None:
                 out.append(("an untimed wait only when there is no idle job at all", Val.is_none(job)))
             else:
@@ -457,7 +482,10 @@ def _setup_loop(engine, st):
     st.assume(cls_of(z3.IntVal(oid)) == engine.tag("weakref"))
     st.put("$referent", oid, ex.t)
     engine.cfg.inflight = []
-    return [Z(ref(oid), ("weakref", INST("RetryExecutor")))], {}, {"ex": ex}
+    from .base import StopFlags
+    engine.cfg.flags = StopFlags(engine, st, ex)
+    engine.cfg.flags.install(engine.cfg)
+    return [Z(ref(oid), ("weakref", INST("RetryExecutor")))], {}, {"ex": ex, "wid": z3.IntVal(oid)}
 
 
 def _post_loop(engine, st, ctx, out):
@@ -465,9 +493,9 @@ def _post_loop(engine, st, ctx, out):
     if isinstance(out, Raise):
         cl.append(("the submit thread never dies from an exception of its own (e.g. a lost race with cancel)", "EX", z3.BoolVal(False), ["C18", "C03"]))
     else:
-        why = [a for a, b in st.decisions if b and ("not executor" in a or "is_shutdown" in a)]
+        gone = any(a == "not executor" and b for a, b in st.decisions)
         cl.append(("the loop ends only when the executor is gone, shut down, or the interpreter exits", "PC",
-                   z3.BoolVal(bool(why) or any("cannot schedule" in str(a) for a, b in st.decisions)), ["C11", "C12"]))
+                   z3.Or(z3.BoolVal(gone), engine.cfg.flags.now(st)), ["C11", "C12"]))
     return cl
 
 
